@@ -107,6 +107,28 @@ CLAIMED = {
          "the forward/inverse round-trip lemma (finite geometric sum), Phonopy.ph2ph plumbing.",
     technique="deductive verification: modular contracts + loop invariants over recursive-sum spec functions, z3",
     design="DESIGN.md section 5 C06"),
+ "C01": dict(
+    text="Symmetry-expansion kernel of the finite-displacement solver: phpy_distribute_fc2 (c/phonopy.c) is symbolically executed from clang's AST on every run; "
+         "with a ghost map of the rows already filled, the postcondition is that every row i whose representative atoms[map_atoms[map_syms...]] differs from i "
+         "holds R^T * Phi[rep, perm(j)] * R for every j (the rotated copy of the representative row) and that rows of representative atoms and everything outside "
+         "the target rows are unchanged (frame); all subscripts in range. All sizes, permutations and rotation matrices symbolic.",
+    note=TRUST + "Only the distribution kernel is under contract; the least-squares solve of the first-atom rows (numpy.linalg.pinv), compute_permutation and "
+         "the displacement-direction search are not decided by this check.",
+    technique="deductive verification: modular contract with ghost state + loop invariants, z3",
+    design="DESIGN.md section 5 C01"),
+ "C15": dict(
+    text="Class invariant of Phonopy (phonopy/api_phonopy.py) over its public state-changing methods: the bodies of force_constants/nac_params/masses setters, "
+         "set_force_constants_zero_with_radius, symmetrize_force_constants, symmetrize_force_constants_by_space_group, produce_force_constants and "
+         "_set_dynamical_matrix are symbolically executed from the current source for every start state (dynamical matrix present or not, group velocity present "
+         "or not, NAC present or not, is_symmetry symbolic); on every returning path the cached dynamical-matrix object holds the current force-constant content, "
+         "was built from the current NAC parameters, was not edited in place after a NAC build (cached short-range part) and refers to the current cells, and the "
+         "cached group-velocity object refers to the current dynamical-matrix object. Content identity is tracked by ghost tokens (buffer origin + in-place writes). "
+         "A failed invariant is replayed by running the real method on a real Phonopy object with stand-in collaborators.",
+    note=TRUST + "Collaborators (get_dynamical_matrix, GroupVelocity, cutoff/symmetrize functions) enter by the contracts stated in contracts/py_phonopy.py, not verified. "
+         "NOT decided: caller-array ownership, dataset setter / displaced supercells, copy() independence, result objects (mesh, band structure) computed before a change, "
+         "DynamicalMatrixGL internals.",
+    technique="deductive verification: class invariant by symbolic execution of each method with ghost content tokens; path enumeration",
+    design="DESIGN.md section 5 C15"),
 }
 
 NA = {
